@@ -102,21 +102,26 @@ Applies(c, d) == d \in BitsOf(c.mask)
 (*  (2) on difficulty bits the label does not permit, no copy applies;     *)
 (*  (3) every default-on bit of every copy equals that bit of the label.   *)
 (***************************************************************************)
-Levels(st, tab) == {d \in 0..(NumLevels(st.args) - 1) : d \notin TDefaultOn(tab)}
+LevelsOf(args, on) == {d \in 0..(NumLevels(args) - 1) : d \notin on}
+Levels(st, tab) == LevelsOf(st.args, TDefaultOn(tab))
 Applying(copies, d) == {j \in 1..Len(copies) : Applies(copies[j], d)}
 
 OneOnLevel(st, copies, d) ==
-    /\ Cardinality(Applying(copies, d)) = 1
-    /\ CopyInstr(copies[CHOOSE j \in Applying(copies, d) : TRUE]) = InstrAt(st, d)
-LabelRespected(st, tab, copies) ==
-    \A d \in (Bits \ TDefaultOn(tab)) \ StmtMask(st, tab) : Applying(copies, d) = {}
-AuxKept(st, tab, copies) ==
-    \A j \in 1..Len(copies) : BitsOf(copies[j].mask) \cap TDefaultOn(tab) = StmtMask(st, tab) \cap TDefaultOn(tab)
+    LET app == Applying(copies, d) IN
+    /\ Cardinality(app) = 1
+    /\ CopyInstr(copies[CHOOSE j \in app : TRUE]) = InstrAt(st, d)
+\* sm = the statement's mask, on = the default-on bits
+LabelRespectedM(sm, on, copies) == \A d \in (Bits \ on) \ sm : Applying(copies, d) = {}
+AuxKeptM(sm, on, copies) == \A j \in 1..Len(copies) : BitsOf(copies[j].mask) \cap on = sm \cap on
+LabelRespected(st, tab, copies) == LabelRespectedM(StmtMask(st, tab), TDefaultOn(tab), copies)
+AuxKept(st, tab, copies) == AuxKeptM(StmtMask(st, tab), TDefaultOn(tab), copies)
 
 ExactlyOne(st, tab, copies) ==
-    /\ \A d \in Levels(st, tab) \cap StmtMask(st, tab) : OneOnLevel(st, copies, d)
-    /\ LabelRespected(st, tab, copies)
-    /\ AuxKept(st, tab, copies)
+    LET sm == StmtMask(st, tab)
+        on == TDefaultOn(tab)
+    IN /\ \A d \in LevelsOf(st.args, on) \cap sm : OneOnLevel(st, copies, d)
+       /\ LabelRespectedM(sm, on, copies)
+       /\ AuxKeptM(sm, on, copies)
 
 \* for messages: the first clause that fails
 Why(st, tab, copies) ==
